@@ -121,8 +121,13 @@ func NewController(workingDirectory riofs.FS, addr api.WarehouseLocation) (*Cont
 	// ping the remote and see if it responds
 	_, err = whCtrl.lsRemote()
 	if err != nil {
-		isDir := func(p string) bool { st, e := os.Stat(p); return e == nil && st.IsDir() }
-		if whCtrl.protocol == protocolFile && (isDir(filepath.Join(sanitizedAddr, "objects")) || isDir(filepath.Join(sanitizedAddr, ".git", "objects"))) {
+		//  (A repository, that is: an object store next to a HEAD -- not any directory that happens to hold an "objects".)
+		isRepo := func(p string) bool {
+			st, e := os.Stat(filepath.Join(p, "objects"))
+			_, e2 := os.Stat(filepath.Join(p, "HEAD"))
+			return e == nil && st.IsDir() && e2 == nil
+		}
+		if whCtrl.protocol == protocolFile && (isRepo(sanitizedAddr) || isRepo(filepath.Join(sanitizedAddr, ".git"))) {
 			// A local repository is read from its object store, whatever its refs say: one with a detached HEAD
 			//  or with no branch at all fails the ls-remote ping and still holds every commit it ever held.
 			err = whCtrl.setCacheStorage()
